@@ -114,7 +114,7 @@ def gen_cases(ctx, n):
             if o[0] == 'W' and len(sim_ops) > 0:      # lvalue construction differs from V only in the counters: keep the tree small
                 continue
             rec(sim_ops + [o], depth - 1)
-    rec([], 2 if ctx.quick else 4)
+    rec([], 2 if ctx.quick else 3)
     base = len(cases)
     while len(cases) < base + n:
         sim = Sim()
@@ -186,7 +186,7 @@ def run(ctx):
     ctx.prove(models=['Model/C40Check.v', 'Base/Corr.v'])
     exe = dv.build_harness('h_opresult', ['h_opresult.cpp'], need_lib=False, extra_flags=['-std=c++17'])
     ctx.phase('build')
-    cases = gen_cases(ctx, 350 if ctx.quick else 12000)
+    cases = gen_cases(ctx, 350 if ctx.quick else 2500)
     lines = [' '.join(tok(o) for o in ops) for ops in cases]
     outs = pf_common.run_harness(exe, lines)
     terms, kept = [], []
